@@ -111,6 +111,8 @@ class Exec(Engine):
         f = n.func
         if isinstance(f, ast.Name) and f.id == 'Thread':
             return True
+        if isinstance(f, ast.Name) and st.has(f.id) and st.get(f.id).t.k == 'u' and (st.get(f.id).t.name, '__call__') in self.R.aliases:
+            return True
         if isinstance(f, ast.Attribute) and isinstance(f.value, ast.Name) and st.has(f.value.id) and st.get(f.value.id).t.k == 'thread':
             return True
         if isinstance(f, ast.Name):
@@ -789,6 +791,12 @@ class Exec(Engine):
         # contract call
         ev = Evaluator(self, st)
         recv = None
+        if isinstance(f, ast.Name) and st.has(f.id) and st.get(f.id).t.k == 'u' and (st.get(f.id).t.name, '__call__') in self.R.aliases:
+            recv = st.get(f.id)
+            c = self.R.contracts[self.R.aliases[(recv.t.name, '__call__')]]
+            binds = self.bind_args(ev, c, n, recv)
+            outs = self.settle(st, ev, n.lineno)
+            return outs + self.apply_contract(c, binds, st, n.lineno)
         if isinstance(f, ast.Attribute):
             root = f
             while isinstance(root, (ast.Attribute, ast.Subscript, ast.Call)):
@@ -805,6 +813,8 @@ class Exec(Engine):
                 c = self.R.contracts[f'{d.key}.__init__']
                 recv = self.new_object(st, f.id)
                 binds = self.bind_args(ev, c, n, recv)
+                for fld, par in c.binds_fields.items():
+                    st.heap[f'{recv.z}.{fld}'] = binds[par]      # the new object's field aliases the argument object
                 outs = self.settle(st, ev, n.lineno)
                 res = []
                 for o in self.apply_contract(c, binds, st, n.lineno):
@@ -1013,7 +1023,7 @@ class Exec(Engine):
             b2['exc'] = exc
             ok = True
             for cl in clauses:
-                if self.active(cl):
+                if True:  # assumed regardless of the property slice (proved under the properties it serves)
                     ex_st.assume(self.eval_clause(ex_st, cl, b2, old=pre_heap))
             if self.feasible(ex_st):
                 outs.append(Outcome('raise', ex_st, {'exc': exc, 'from': c.key}))
@@ -1024,7 +1034,8 @@ class Exec(Engine):
         else:
             res = SV(NONE, None) if rt.k == 'none' else self.fresh_sv(rt, 'ret_' + cname.split('.')[-1])
         b2 = dict(binds)
-        b2['result'] = res
+        if rt.k != 'none' or 'result' not in c.params:
+            b2['result'] = res
         for gpath, gexpr in c.ghost_exit.items():
             # ghost updates are evaluated in the pre-state and are part of the frame implicitly
             tgt = self.resolve_ghost_path(gpath, binds)
@@ -1032,7 +1043,7 @@ class Exec(Engine):
             nv = self.eval_spec_in(pre_view, gexpr, binds, heap=pre_heap, old=pre_heap)
             st.heap[tgt] = self.coerce(nv, st.heap[tgt].t) if tgt in st.heap else nv
         for cl in c.ensures:
-            if self.active(cl):
+            if True:  # assumed regardless of the property slice (proved under the properties it serves)
                 st.assume(self.eval_clause(st, cl, b2, old=pre_heap))
         if self.cur is not None:
             for cal, clauses in self.cur.assume_after.items():
@@ -1207,7 +1218,7 @@ class Exec(Engine):
             for p, v in o.st.heap.items():
                 old = snap_heap.get(p)
                 if old is None:
-                    old = o.st.old.get(p)      # lazily created record field: its entry value
+                    old = self.lazy_entry.get(p)      # lazily created record field: its entry value
                 if old is None or (old is not v and not self.same_repr(old, v)):
                     paths.add(p)
         return names, paths
@@ -1237,7 +1248,7 @@ class Exec(Engine):
             pass
 
     def candidate_pool(self):
-        return [c for c in (self.cur.candidates if self.cur else []) if self.active(c)]
+        return [c for c in (self.cur.candidates if self.cur else [])]
 
     def eval_candidates(self, st: State, cands, binds_extra):
         """-> {label: formula} for candidates that compile at this point."""
@@ -1639,6 +1650,8 @@ class Exec(Engine):
         for g, ts in getattr(self.R, 'globals', {}).items():
             t = parse_type(ts)
             st.heap[f'@{g}'] = self.fresh_sv(t, g)
+        for g, cls_name in self.R.global_objects.items():
+            self.populate_object(st, f'@{g}', cls_name, depth=0)
         st.old = dict(st.heap)
         return st, binds
 
@@ -1672,6 +1685,7 @@ class Exec(Engine):
         self.cur, self.cur_fkey = c, fkey
         self.cur_module = fkey.split(':')[0]
         self.loop_counter = 0
+        self.lazy_entry = {}
         self.canary = []
         self.loop_ordinals = {}
         self.yield_counter = 0
@@ -1692,7 +1706,7 @@ class Exec(Engine):
         self.entry_binds = binds
         # parameter defaults declared in the real signature are not re-checked; the contract names them
         for cl in c.requires:
-            if self.active(cl):
+            if True:  # assumed regardless of the property slice (proved under the properties it serves)
                 st.assume(self.eval_clause(st, cl, binds))
         if not self.trial:
             self.covers.append((fkey, self.feasible(st)))
@@ -1723,7 +1737,7 @@ class Exec(Engine):
                     b2['result'] = SV(rt, val.z)
                 else:
                     raise
-        else:
+        elif 'result' not in c.params:
             b2['result'] = val
         for gpath, gexpr in c.ghost_exit.items():
             tgt = self.resolve_ghost_path(gpath, binds)
